@@ -2894,6 +2894,17 @@ pub fn spin_obs_family(full: bool) -> Vec<Program> {
         out.push(with_main("SPIN-mp", atomics(2), vec![], vec![setter.clone(), spinner.clone()], vec![], vec![]));
         out.push(with_main("SPIN-mp-main", atomics(2), vec![], vec![setter], spinner, vec![]));
     }
+    // two loads per loop iteration: `while !(a == 1 && b == 1) { yield }`
+    for (so, lo) in [(Rlx, Rlx), (Rel, Acq)] {
+        let writers: Vec<Vec<Vec<Op>>> = vec![vec![vec![st(0, 1, so), st(1, 1, so)]], vec![vec![st(1, 1, so), st(0, 1, so)]], vec![vec![st(0, 1, so)], vec![st(1, 1, so)]]];
+        for w in writers {
+            let spin: Vec<Op> = vec![K::Await2 { a: 0, b: 1, mo: lo, wa: 1, wb: 1 }.into()];
+            let mut ch = w.clone();
+            ch.push(spin.clone());
+            out.push(with_main("SPIN-two-flags", atomics(2), vec![], ch, vec![], vec![]));
+            out.push(with_main("SPIN-two-flags-main", atomics(2), vec![], w, spin, vec![]));
+        }
+    }
     let ld_os: &[MO] = if full { &[Sc, Acq, Rlx] } else { &[Sc] };
     // two setters: the flag is raised by one thread, the data written by another
     for &la in ld_os {
